@@ -71,6 +71,7 @@ func checkC07(c c07Case, o *Obs) error {
 	o.Label("measure:" + c.Measure)
 	o.LabelIf(len(c.Targets[0].Seq) >= 64, "width>=64")
 	o.LabelIf(len(c.Targets[0].Seq)%64 == 0, "width-multiple-of-64")
+	o.LabelIf(len(c.Targets[0].Seq) > 65535, "width>65535")
 	nt := false
 	for _, q := range c.Queries {
 		for _, t := range c.Targets {
@@ -186,6 +187,15 @@ func checkC07(c c07Case, o *Obs) error {
 // genBalancedTarget builds a target in which each base has at least ~15% share, so that eq. 7's
 // logarithm arguments stay well inside their domain for modest divergence (construction, not filtering).
 func genBalancedTarget(t *rapid.T, w int) []byte {
+	if w > 20000 {
+		// long targets: a random balanced unit of prime length repeated (drawing 100k symbols one by one is needlessly slow)
+		unit := genBalancedTarget(t, 997)
+		b := make([]byte, w)
+		for i := range b {
+			b[i] = unit[i%997]
+		}
+		return b
+	}
 	b := make([]byte, w)
 	m := (w*15 + 99) / 100
 	for i := range b {
@@ -232,8 +242,15 @@ func genDivergedQuery(t *rapid.T, target []byte, maxDiffFrac int) (q, tOut []byt
 	tOut = append([]byte(nil), target...)
 	// ambiguity (kept below ~20% in each so base counts stay balanced)
 	namb := rapid.IntRange(0, w/5).Draw(t, "namb")
+	ambFrom := 0
+	if w > 60000 {
+		// very long, almost fully resolved pair: the few ambiguous columns sit near the end, so that the first
+		// 65536 columns are all A/C/G/T in both sequences
+		namb = rapid.IntRange(0, 3).Draw(t, "nambHuge")
+		ambFrom = w - 1000
+	}
 	for k := 0; k < namb; k++ {
-		p := rapid.IntRange(0, w-1).Draw(t, "ambPos")
+		p := rapid.IntRange(ambFrom, w-1).Draw(t, "ambPos")
 		sym := alpha17[4+rapid.IntRange(0, 12).Draw(t, "ambSym")]
 		if rapid.IntRange(0, 2).Draw(t, "ambWhere") == 0 {
 			tOut[p] = sym
@@ -277,6 +294,9 @@ func genC07(t *rapid.T) c07Case {
 	wide := rapid.IntRange(0, 7).Draw(t, "wide") == 0
 	if wide {
 		w = rapid.SampledFrom([]int{64, 65, 127, 128, 129, 192, 193, 256, 320, 200, 4096, 4097}).Draw(t, "wideWidth")
+		if rapid.IntRange(0, 49).Draw(t, "beyond16bit") == 0 {
+			w = rapid.SampledFrom([]int{65535, 65536, 65537, 70000, 131073}).Draw(t, "hugeWidth") // counters narrower than int overflow here
+		}
 	}
 	nq := rapid.IntRange(1, 2).Draw(t, "nq")
 	nt := rapid.IntRange(1, 4).Draw(t, "nt")
